@@ -588,7 +588,7 @@ func TestC02_MultiFault(t *testing.T) {
 			if bad == "" {
 				break
 			}
-			if round == 3 {
+			if round == healRounds {
 				fail("%s", bad)
 			}
 			for _, s := range w.Sources {
